@@ -20,8 +20,40 @@ from ..binutils.debuginfo import FpOffsetAddress
 from .selectiongraph import SGNode, SGValue, SelectionGraph
 
 
+def split_critical_edges(ir_function):
+    """Give every edge that carries phi copies a block of its own.
+
+    The values of the phi nodes of a successor block are copied at the end
+    of the predecessor block. When the predecessor can leave to more than
+    one block, those copies would also be executed when another edge is
+    taken (and before the condition of the jump is evaluated), overwriting
+    phi registers which are still live there, for example the phis of a
+    loop header on the exit edge of the loop. Insert an empty block on
+    such an edge, the copies are then placed in that block.
+    """
+    edge_nr = 1
+    for ir_block in list(ir_function):
+        targets = []
+        for target in ir_block.successors:
+            if target not in targets:
+                targets.append(target)
+        if len(targets) < 2:
+            continue
+        for target in targets:
+            if target.phis:
+                edge_block = ir.Block(f"{ir_function.name}_edge_{edge_nr}")
+                edge_nr += 1
+                ir_function.add_block(edge_block)
+                ir_block.change_target(target, edge_block)
+                edge_block.add_instruction(ir.Jump(target))
+                target.replace_incoming(ir_block, [edge_block])
+
+
 def prepare_function_info(arch, function_info, ir_function):
     """Fill function info with labels for all basic blocks"""
+    # Make room for the phi copies:
+    split_critical_edges(ir_function)
+
     # First define labels and phis:
 
     function_info.epilog_label = Label(ir_function.name + "_epilog")
